@@ -202,6 +202,17 @@ def make(tier):
                  txt + ': the action is applied to every element exactly once; exactly the elements whose action is remove are erased, the others stay')
     Q['vf_maybe_front_back'] = ([PRE, '__CPROVER_is_fresh(back, 8)'], G + ', *back', ['(i64)__CPROVER_return_value == (n == 0 ? (i64)-1 : (i64)0)', '(i64)*back == (n == 0 ? (i64)-1 : (i64)n - 1)'], 'maybe_front / maybe_back: the first / last element iff the container is not empty')
     Q['vf_pop_front'] = ([PRE, FRO + ' && __CPROVER_is_fresh(val, 4)'], G + ', ' + OUTS + ', *val', ['__CPROVER_return_value == (n > 0)', 'VF_IMP(n > 0, *val == a0 && *on == n - 1 && VF_IMP(n > 1, o[0] == a1) && VF_IMP(n > 2, o[1] == a2))', 'VF_IMP(n == 0, *on == 0)'], 'pop_front: removes and returns the first element, the rest keeps its order')
+    J1 = 'n1 <= 2 && (n1 < 2 || (i32)k0 < (i32)k1) && n2 <= 2 && (n2 < 2 || (i32)j0 < (i32)j1)'
+    AK = [('k0', 'm0'), ('k1', 'm1')]; BK = [('j0', 'p0'), ('j1', 'p1')]
+    inAk = lambda x: '(' + ' || '.join('(%d < n1 && %s == %s)' % (i, k, x) for i, (k, m) in enumerate(AK)) + ')'
+    inBk = lambda x: '(' + ' || '.join('(%d < n2 && %s == %s)' % (i, k, x) for i, (k, m) in enumerate(BK)) + ')'
+    hasKV = lambda k, m: '(' + ' || '.join('(%d < *on && o[%d] == %s && o[%d] == %s)' % (i, 2 * i, k, 2 * i + 1, m) for i in range(4)) + ')'
+    jens = ['*on <= 4 && ' + ' && '.join('VF_IMP(%d < *on, (i32)o[%d] < (i32)o[%d])' % (i + 1, 2 * i, 2 * i + 2) for i in range(3))]
+    jens += ['VF_IMP(%d < n1, %s)' % (i, hasKV(k, m)) for i, (k, m) in enumerate(AK)]
+    jens += ['VF_IMP(%d < n2 && !%s, %s)' % (i, inAk(k), hasKV(k, m)) for i, (k, m) in enumerate(BK)]
+    jens += ['VF_IMP(%d < *on, %s || %s)' % (i, inAk('o[%d]' % (2 * i)), inBk('o[%d]' % (2 * i))) for i in range(4)]
+    for nm in ('vf_join_maps_lr', 'vf_join_maps_rr'):
+        Q[nm] = ([J1, Z, FRM], G + ', ' + OUTS, jens, 'container::join on associative containers: the second map is inserted into the first - every entry of the first map keeps its value, entries of the second are added only under new keys (whatever the sizes and value categories)')
     qspec = ''
     for f, (req, asg, ens, what) in Q.items():
         qspec += 'function %s\n' % f + ''.join('  __CPROVER_requires(%s)\n' % r for r in req) + '  __CPROVER_assigns(%s)\n' % asg + ''.join('  __CPROVER_ensures(%s)\n' % e for e in ens)
